@@ -172,8 +172,9 @@ Section Inst.
         let q := mkpool g ng in
         let m := get_aggregate_commit agg_i e (gossiped p) (nongossiped p) in
         let agree := match m, res with
-                     | GOk a, Some b => ac_eqb a b
-                     | GEmpty h, Some b => (ac_height b =? h) && Nat.eqb (length (ac_bits b)) 0 && sig_len0_i (ac_sig b)
+                     | GOk a, Some b => ac_eqb a b && (v =? vres_code (verify sig_len0_i msg_of_i fav_i e b))
+                     | GEmpty h, Some b => (ac_height b =? h) && Nat.eqb (length (ac_bits b)) 0 && sig_len0_i (ac_sig b) &&
+                                           (v =? vres_code (verify sig_len0_i msg_of_i fav_i e b))
                      | GErrParams, None => ek =? 1
                      | GErrAggregate _, None => ek =? 2
                      | _, _ => false
@@ -221,4 +222,8 @@ Definition scenario : Type :=
 Definition check_scenario (s : scenario) : N :=
   let '(kt, e, sched, (g0, ng0), os) := s in
   let es := {| e_mhp := e_mhp e; e_mhc := e_mhc e; e_params := sched; e_chain := e_chain e |} in
-  check_ops kt e es {| gossiped := g0; nongossiped := ng0 |} os 0 0.
+  (* maxHeightCertified is not taken on trust from the node's store: it is the largest aggregate-commit height carried by
+     the headers of the chain; a mismatch is reported with the index one past the last operation *)
+  if negb (e_mhc e =? fold_left (fun a kh => N.max a (h_ac_height (snd kh))) (e_chain e) 0)
+  then 4 * N.of_nat (length os) + 2
+  else check_ops kt e es {| gossiped := g0; nongossiped := ng0 |} os 0 0.
